@@ -173,8 +173,10 @@ def send_budget(lens: list, T: int, interval, mode: str = "sendmsg", max_eagain:
     return scenario
 
 
-def recv_budget(frame: int, T: int, interval, path: str, bufsize: int = 2, max_eagain: int = 2, eof: bool = False):
-    """StreamEndpoint.recv_packet(timeout=T) with a frame of `frame` symbolic bytes + LF that the kernel hands out in pieces."""
+def recv_budget(frame: int, T: int, interval, path: str, bufsize: int = 2, max_eagain: int = 2, eof: bool = False, hidden: bool = False):
+    """StreamEndpoint.recv_packet(timeout=T) with a frame of `frame` symbolic bytes + LF that the kernel hands out in pieces.
+    hidden=True: the selector never reports the socket readable although a retried read succeeds (the situation retry_interval
+    is documented for): with a finite retry_interval the call must still complete - after at most one interval per would-block."""
 
     def scenario(S):
         payload = S.bytes(frame, "p")
@@ -182,8 +184,11 @@ def recv_budget(frame: int, T: int, interval, path: str, bufsize: int = 2, max_e
         if frame:
             S.assume(payload[0] != L.MARK)
         complete = S.bool("complete")  # does the terminator ever arrive?
+        if T == INF:
+            S.assume(complete)  # without a deadline an incomplete frame legitimately waits forever
         incoming = payload + b"\n" if complete else payload
-        env = Env(S, fuel=3 * (frame + 1 + max_eagain) + 8, max_eagain=max_eagain, cap=max(frame + 1, 1), elapsed_max=T + 1)
+        env = Env(S, fuel=3 * (frame + 1 + max_eagain) + 8, max_eagain=max_eagain, cap=max(frame + 1, 1), elapsed_max=(T if T != INF else 3) + 1)
+        env.hidden_ready = hidden
         sock = FakeSocket(env, incoming=incoming, eof_after=eof)
         try:
             tr = SocketStreamTransport(sock, interval, selector_factory=lambda: StubSelector(env))
@@ -201,6 +206,8 @@ def recv_budget(frame: int, T: int, interval, path: str, bufsize: int = 2, max_e
         if outcome == "eof":
             extra = eof and not complete
         ok, elapsed, tags = _verdict(env, T, outcome, 0, extra_ok=extra)
+        if hidden and complete and interval != INF and (T == INF or T > interval * max_eagain) and outcome != "returned":
+            ok = False  # every would-block costs at most one retry interval: the packet must have been delivered
         return Outcome(ok=ok, skeleton=(outcome, elapsed), tags=tags, detail={"outcome": outcome, "elapsed": elapsed, "T": T, "selects": env.selects, "complete": complete})
 
     return scenario
@@ -496,6 +503,8 @@ def shards(tier: str):
             for path in ("copy", "buf"):
                 for frame in (1, 2) if quick else (1, 2, 3):
                     add(f"recv/{path}/F{frame}/T{T}/i{ivn}", "recv_budget", dict(frame=frame, T=T, interval=iv, path=path, bufsize=1 if frame == 1 else 2, max_eagain=2), cost=10 * (T + 1) ** 2 * frame)
+            if iv != INF and T != 0:
+                add(f"recv-hidden/copy/F1/T{T}/i{ivn}", "recv_budget", dict(frame=1, T=T, interval=iv, path="copy", bufsize=2, max_eagain=1, hidden=True), cost=10)
             add(f"recv-eof/copy/F1/T{T}/i{ivn}", "recv_budget", dict(frame=1, T=T, interval=iv, path="copy", bufsize=2, max_eagain=1, eof=True), cost=10)
             for op in ("recv", "send", "iter"):
                 add(f"client/{op}/T{T}/i{ivn}", "client_op", dict(op=op, T=T, interval=iv, frame=1, path="copy", max_eagain=1, packets=2 if op == "iter" else 1), cost=20 * (T + 1) ** 2)
@@ -503,6 +512,9 @@ def shards(tier: str):
                 add(f"udpclient/{op}/T{T}/i{ivn}", "udp_client_op", dict(op=op, T=T, interval=iv, max_eagain=1, packets=2 if op == "iter" else 1), cost=20 * (T + 1) ** 2)
             if not quick:
                 add(f"client/recv-buf/T{T}/i{ivn}", "client_op", dict(op="recv", T=T, interval=iv, frame=2, path="buf", max_eagain=2), cost=20 * (T + 1) ** 2)
+    # no deadline at all, finite retry interval, readiness never reported: only the retry interval gets the call through
+    for path in ("copy", "buf"):
+        add(f"recv-hidden/{path}/F1/Tinf/i1", "recv_budget", dict(frame=1, T=INF, interval=1, path=path, bufsize=2, max_eagain=2, hidden=True), cost=10)
     # KS engine: loop-head induction for the timeout book-keeping loops (unbounded number of wake-ups / partial writes)
     out.append({"name": "ks/retry-send_all-sendmsg/loop-head-induction", "ks": "ks.retry:run_all", "scenario": "ks.retry:run_all", "params": {}, "budget": 120, "cost": 1})
     return out
